@@ -3,3 +3,6 @@
 //! that does not report its control makes the check fail as broken.
 #![allow(dead_code, unused_variables)]
 pub mod t1;
+pub mod n1;
+pub mod n2;
+pub mod n3;
